@@ -76,11 +76,16 @@ void SavePreferencesToFile(
   std::auto_ptr<const FilePreferenceSaverThread::PreferencesMap> pref_map(
       pref_map_ptr);
 
+  // Write the new contents to a temporary file and then rename it over the
+  // old one. That way a crash part way through a save leaves either the
+  // complete old file or the complete new one, never a truncated file.
+  const string temp_filename = *filename + ".tmp";
+
   FilePreferenceSaverThread::PreferencesMap::const_iterator iter;
-  ofstream pref_file(filename->data());
+  ofstream pref_file(temp_filename.data());
 
   if (!pref_file.is_open()) {
-    OLA_WARN << "Could not open " << *filename_ptr << ": " << strerror(errno);
+    OLA_WARN << "Could not open " << temp_filename << ": " << strerror(errno);
     return;
   }
 
@@ -89,6 +94,23 @@ void SavePreferencesToFile(
   }
   pref_file.flush();
   pref_file.close();
+
+  if (pref_file.fail()) {
+    OLA_WARN << "Failed to write " << temp_filename << ", keeping the old "
+             << *filename;
+    remove(temp_filename.c_str());
+    return;
+  }
+
+#ifdef _WIN32
+  // On Windows rename() doesn't replace an existing file.
+  remove(filename->c_str());
+#endif  // _WIN32
+  if (rename(temp_filename.c_str(), filename->c_str())) {
+    OLA_WARN << "Could not rename " << temp_filename << " to " << *filename
+             << ": " << strerror(errno);
+    remove(temp_filename.c_str());
+  }
 }
 }  // namespace
 
